@@ -1,7 +1,7 @@
 (* The capstone (model observation satisfies c07_holds) for mixed-case bases. *)
 From Boltons Require Import Lib.Prelude Lib.C07_Str Spec.C07_Spec Gen.C07_Gen Model.C07_Model
      Check.C07_Check Proofs.C07_StrLemmas Proofs.C07_Rds Proofs.C07_Resolve Proofs.C07_Parse
-     Proofs.C07_Navigate Proofs.C07_Text Proofs.C07_Refine Proofs.C07_Case.
+     Proofs.C07_Navigate Proofs.C07_Text Proofs.C07_Query Proofs.C07_Refine Proofs.C07_Case.
 Open Scope N_scope.
 
 (* ---- one step, with the base given as RFC components B (any case) and a
@@ -86,6 +86,17 @@ Proof.
   - rewrite Hp in Hp'. inversion Hp'; subst. reflexivity.
 Qed.
 
+(* the HT premise of spec_query_step from mc_step *)
+Lemma mc_query_premise B n d s a :
+  wf_uri B -> scheme B = Some s -> authority B = Some a ->
+  wf_base n -> uri_of n = norm_case B -> wf_ref d ->
+  exists T, transform B (uri_of d) = Some T /\ query T = opt (query_text (nav_query n d)).
+Proof.
+  intros WB Hs Ha Wn Hfold Wd.
+  destruct (mc_step B n d s a WB Hs Ha Wn Hfold Wd) as (T & ET & NT & _).
+  exists T. split; [exact ET|]. rewrite <- (nav_uri_query n d Wn Wd), <- NT. reflexivity.
+Qed.
+
 Lemma normalize_lc b : normalize (lc b) = normalize b.
 Proof. unfold normalize, lc. cbn [u_scheme u_sep u_user u_pass u_host u_port u_path u_query u_frag]. rewrite !lower_idem. reflexivity. Qed.
 
@@ -120,7 +131,10 @@ Proof.
       apply (mc_spec _ (lc b) d1 _ _ _ Ub Sb Ab Wl Hfold Wd eq_refl).
     - rewrite (wf_base_absolute d1 Wd). apply strict_implies. unfold spec_navigate_strict.
       rewrite (abs_dest_any_base _ d1 Wd). apply str_eqb_refl. }
-  rewrite N1, (spec_clean_wf _ Wn1 (navigate_url_clean (lc b) d1 Wl W1)), !str_eqb_refl.
+  assert (Q1 : spec_query (to_text b) (to_text d1) (to_text n1) = true).
+  { apply (spec_query_step _ (uri_of b) (lc b) d1); [rewrite Tb; apply (parse_recompose _ Ub) | exact Wl | | exact W1 | reflexivity].
+    intro Wd. apply (mc_query_premise _ _ _ _ _ Ub Sb Ab Wl Hfold Wd). }
+  rewrite N1, Q1, (spec_clean_wf _ Wn1 (navigate_url_clean (lc b) d1 Wl W1)), !str_eqb_refl.
   (* 6: the chain *)
   assert (CH : spec_chain (to_text b) (to_text d1) (to_text d2) (to_text (navigate_url n1 d2)) = true).
   { unfold spec_chain. destruct W1 as [Wd1|Wd1].
@@ -142,7 +156,22 @@ Proof.
       rewrite <- E1, <- (rootify_text _ Wn1).
       unfold spec_navigate. rewrite (navigate_url_target _ d2 (rootify_wf _ Wn1) W2).
       rewrite (navigate_url_rootify _ d2 Wn1 W2). apply str_eqb_refl. }
-  rewrite CH, (spec_clean_wf _ Wn2 (navigate_url_clean _ d2 Wn1 W2)).
+  assert (QC : spec_query_chain (to_text b) (to_text d1) (to_text d2) (to_text (navigate_url n1 d2)) = true).
+  { unfold spec_query_chain. destruct W1 as [Wd1|Wd1].
+    - destruct (mc_step _ (lc b) d1 _ _ Ub Sb Ab Wl Hfold Wd1) as (T1 & ET & NT & WT & Ts & Ta).
+      destruct (ref_facts d1 Wd1) as (_ & Td1 & Ud1).
+      unfold target. rewrite Tb, Td1, (parse_recompose _ Ub), (parse_recompose _ Ud1), ET.
+      assert (E1 : n1 = navigate_rel (lc b) d1) by (unfold n1, navigate_url; rewrite (wf_ref_relative d1 Wd1); reflexivity).
+      destruct (root_keeps_sa T1) as [Rs Ra]. rewrite Ts in Rs. rewrite Ta in Ra.
+      apply (spec_query_step _ (root_if_empty T1) (rootify n1) d2);
+        [apply (parse_recompose _ WT) | exact (rootify_wf _ Wn1) | | exact W2
+         | apply navigate_url_result_query_rootify; assumption].
+      intro Wd2. apply (mc_query_premise _ _ _ _ _ WT Rs Ra (rootify_wf _ Wn1)); [|exact Wd2].
+      rewrite (rootify_uri _ Wn1), E1, <- NT. symmetry. apply norm_case_root.
+    - rewrite (abs_dest_any_base _ d1 Wd1).
+      assert (E1 : n1 = normalize d1) by (unfold n1, navigate_url; rewrite (wf_base_absolute d1 Wd1); reflexivity).
+      rewrite <- E1, <- (rootify_text _ Wn1). apply query_second_step; assumption. }
+  rewrite CH, QC, (spec_clean_wf _ Wn2 (navigate_url_clean _ d2 Wn1 W2)).
   (* 8: normalize *)
   assert (NZ : spec_normalized (to_text b) (to_text (normalize (lc b))) (to_text (normalize (normalize (lc b)))) = true).
   { unfold spec_normalized. rewrite normalize_idem, str_eqb_refl. cbn [andb].
